@@ -1440,15 +1440,22 @@ fn gen_c14_sparse(cfg: &GenCfg, rng: &mut Rng, w: &mut dyn Write, kind: &str) {
 /// `top..top+n`; `top` variables above them have no nodes at all (operations that build auxiliary
 /// variable nodes allocate them first); the ballast lives on four variables at the bottom.
 fn gen_c14_fill(cfg: &GenCfg, rng: &mut Rng, w: &mut dyn Write, kind: &str) {
-    let scripts = if cfg.thorough { 12 } else { 3 } * cfg.scale;
+    let scripts = if cfg.thorough { 12 } else { 4 } * cfg.scale;
     for sc in 0..scripts {
+        let mt = sc % 2 == 1;
         let top = rng.range(1, 2) as u32;
-        let n = 3u32;
+        let n = if mt { 4u32 } else { 3u32 };
         let nv = top + n + 4;
         let (blo, bhi) = (top + n, nv);
         let cap = 64usize;
-        writeln!(w, "case c14-fill-s{}", sc).unwrap();
-        writeln!(w, "mgr nodes={} cache=16 threads=1 vars={}", cap, nv).unwrap();
+        // every other script on a manager with worker threads and a deep split: the parallel
+        // recursors (join of two branches, one of which may fail) run the same fault points
+        writeln!(w, "case c14-fill-s{}{}", sc, if mt { "-mt" } else { "" }).unwrap();
+        if mt {
+            writeln!(w, "mgr nodes={} cache=16 threads=4 split=64 vars={}", cap, nv).unwrap();
+        } else {
+            writeln!(w, "mgr nodes={} cache=16 threads=1 vars={}", cap, nv).unwrap();
+        }
         let mut pool: Vec<String> = Vec::new();
         for v in top..top + n {
             if rng.chance(2, 3) {
@@ -1462,7 +1469,7 @@ fn gen_c14_fill(cfg: &GenCfg, rng: &mut Rng, w: &mut dyn Write, kind: &str) {
             pool.push(format!("y{}", top + n - 1));
             pool.push(format!("ny{}", top + 1));
         }
-        for s in 0..5 {
+        for s in 0..(if mt { 9 } else { 5 }) {
             writeln!(w, "op g{} {} {} {}", s, rng.pick(&BIN_OPS), rng.pick(&pool), rng.pick(&pool)).unwrap();
             pool.push(format!("g{s}"));
         }
@@ -1478,7 +1485,9 @@ fn gen_c14_fill(cfg: &GenCfg, rng: &mut Rng, w: &mut dyn Write, kind: &str) {
             let q = *rng.pick(&["exists", "forall", "unique"]);
             let sg = |r: &mut Rng| if r.chance(1, 2) { "+" } else { "-" };
             // preparation lines (handles the operation needs), the operation itself, clean-up
-            let (prep, op, cleanup): (Vec<String>, String, Vec<String>) = match if zbdd(kind) { rng.below(3) } else { rng.below(8) } {
+            // with worker threads mostly the ternary operations (their two branches are joined)
+            let which = if zbdd(kind) { rng.below(3) } else if mt && rng.chance(2, 3) { *rng.pick(&[1u64, 6, 6, 1, 5]) } else { rng.below(8) };
+            let (prep, op, cleanup): (Vec<String>, String, Vec<String>) = match which {
                 0 => (vec![], format!("op r {} {} {}", rng.pick(&BIN_OPS), f, g), vec![]),
                 1 => (vec![], format!("op r ite {} {} {}", f, g, h), vec![]),
                 2 => (vec![], format!("op r not {}", f), vec![]),
